@@ -1,8 +1,8 @@
 --------------------------- MODULE Emit_ContentHash ---------------------------
 (* Writes the request pairs that ContentHash.tla says have *different* encodings (all single-field
-   mutations of two base requests) to IOEnv.VERIF_OUT; the real hashes must differ too. *)
+   mutations of two base requests, and equal-length mutations of an earlier entry of 2-3 entry metadata lists) to IOEnv.VERIF_OUT; the real hashes must differ too. *)
 EXTENDS ContentHash, IOUtils
 SX == INSTANCE SequencesExt
-EInit == r1 = <<>> /\ out = <<>> /\ ndJsonSerialize(IOEnv.VERIF_OUT, SX!SetToSeq(MutPairs))
+EInit == r1 = <<>> /\ out = <<>> /\ ndJsonSerialize(IOEnv.VERIF_OUT, SX!SetToSeq(MutPairs) \o SX!SetToSeq(MdMutPairs)) /\ MdMutSound
 ENext == FALSE /\ UNCHANGED vars
 =============================================================================
